@@ -117,6 +117,11 @@ impl State {
 //@use cursor.fns ::pack_int
 //@use cursor.fns ::pack_float_bo
 //@use cursor.fns ::pack_float
+//@use cursor.fns ::word_bitstr_not
+//@use cursor.fns ::bitstr_len
+//@use cursor.fns ::b_units
+//@use cursor.fns ::kb_units
+//@use cursor.fns ::mb_units
 
 // the data words of the word table (Rword)
 //@use words.fns ::load#w_u8
